@@ -701,6 +701,26 @@ pub fn disjoint_pages_chain_family(audit: &str) -> Vec<Value> {
     cases
 }
 
+
+/// Batches of many hundred warmed-up keys inside one merkle worker's range (the update consumes
+/// the warm-up worker's finished seeks through a bounded look-ahead queue).
+pub fn bulk_warm_up_family(audit: &str) -> Vec<Value> {
+    let mut cases = vec![];
+    for cc in [1usize, 2] {
+        let mut cfg = Cfg::default();
+        cfg.cc = cc;
+        cfg.warm_up = true;
+        cfg.buckets = 4096;
+        for ops in [
+            vec![json!({"cw": [[0, "wn", 1300]]}), json!({"cw": [[100, "rn", 600], [800, "dn", 50]]})],
+            vec![json!({"cw": [[0, "rn", 700], [700, "wn", 600]]}), json!({"cw": [[0, "dn", 650]]})],
+        ] {
+            cases.push(case("bulk", vec!["seed:all"], &cfg, audit, ops, 3, true));
+        }
+    }
+    cases
+}
+
 pub fn plan_c12(thorough: bool) -> Plan {
     let mut cases = vec![];
     for (seed, uni, batches) in [
@@ -943,10 +963,11 @@ pub fn plan_c06(thorough: bool) -> Plan {
         }
         cases.extend(cs);
     }
+    cases.extend(bulk_warm_up_family("root"));
     sort_by_bound(&mut cases);
     let mut p = Plan::new(
         cases,
-        "histx: for prior states {3 colliding keys, leaf seed, 20-key merkle cluster, 1500 random keys} × commit workers {1,2,3} × warm-up {off, on: every key of the batch / every second key warmed up, with a 1 ms settle so that the warm-up worker has finished its seeks and the update re-uses them}: every sorted batch with ≤B non-trivial per-key actions {read, write, read-then-write, delete, read-then-delete} over a 6–7 key universe of present and absent keys (several keys on one terminal, keys in different root-child ranges); plus, with 3 and 5 (thorough 6, 7) workers, every batch of ≤3 actions over 10 keys placed on both sides of the workers' range boundaries in a two-leaf trie (one terminal spans several workers' ranges); plus the leaf / cluster batches as a witnessed session layered on an uncommitted overlay that rewrote and deleted universe keys; plus every batch of ≤3 {read, write, delete} over ten present keys that share one depth-1 page at mixed depths (DEEP); the session runs with witnessing on; oracle: every witnessed path verifies against the previous root (= reference root), every witnessed read attests exactly the value hash the session observed and is confirmed by its path, every written key is covered with the right value hash and in scope of its path, and proof::verify_update over the witnessed writes = FinishedSession::root = reference root of the updated set.",
+        "histx: for prior states {3 colliding keys, leaf seed, 20-key merkle cluster, 1500 random keys} × commit workers {1,2,3} × warm-up {off, on: every key of the batch / every second key warmed up, with a 1 ms settle so that the warm-up worker has finished its seeks and the update re-uses them}: every sorted batch with ≤B non-trivial per-key actions {read, write, read-then-write, delete, read-then-delete} over a 6–7 key universe of present and absent keys (several keys on one terminal, keys in different root-child ranges); plus, with 3 and 5 (thorough 6, 7) workers, every batch of ≤3 actions over 10 keys placed on both sides of the workers' range boundaries in a two-leaf trie (one terminal spans several workers' ranges); plus the leaf / cluster batches as a witnessed session layered on an uncommitted overlay that rewrote and deleted universe keys; plus every batch of ≤3 {read, write, delete} over ten present keys that share one depth-1 page at mixed depths (DEEP); plus witnessed batches of 650–1300 warmed-up keys (reads, writes, deletes) over 1500 random keys with 1 and 2 workers (the update consumes the finished warm-up seeks through its bounded look-ahead queue); the session runs with witnessing on; oracle: every witnessed path verifies against the previous root (= reference root), every witnessed read attests exactly the value hash the session observed and is confirmed by its path, every written key is covered with the right value hash and in scope of its path, and proof::verify_update over the witnessed writes = FinishedSession::root = reference root of the updated set.",
     );
     p.budget_s = if thorough { 1700 } else { 55 };
     p
@@ -1036,12 +1057,13 @@ pub fn plan_c13(thorough: bool) -> Plan {
     // hash-table geometry: small tables, searched bitbox seeds, pages removed and re-inserted
     // around tombstones, cold reopen (the result must not depend on buckets / seed)
     cases.extend(tombstone_family("root", thorough));
+    cases.extend(bulk_warm_up_family("all"));
     cases.extend(crate::schedx::worker_schedule_cases(thorough));
     add_quiet(&mut cases, 1);
     sort_by_bound(&mut cases);
     let mut p = Plan::new(
         cases,
-        "histx: deviation-bounded enumeration of the option space around the default configuration: every configuration with ≤1 (thorough ≤2) option moved to another menu value {commit_concurrency 2,3,5,6,7,16,64,65; warm_up; page cache 0/1 MiB; leaf cache 0/1 MiB; io_workers 2,3; hashtable_buckets 1000 (not a power of two), 65536; another bitbox seed; page_cache_upper_levels 0,1,3 with and without prepopulation; rollback on} × a fixed set of 7 multi-commit histories that span several workers' key ranges (one of them a two-leaf trie whose terminals straddle the range boundaries of 3, 5, 6 and 7 workers), plus the tombstone family (16/32-bucket tables × searched bitbox seeds, pages removed and re-inserted, cold reopen), the shared root page, the elision threshold from both sides (19- and 21-key clusters), overflow values, leaf and branch splits/merges, each with a mid-history reopen; every commit is witnessed; oracle: roots, values, proofs for every universe key, witness verification and update replay all equal the reference model (hence equal across configurations). Thread interleavings of the internal workers: every schedule with ≤2 (thorough: all) preemptions of the three merkle update workers of one witnessed commit (worker start, publish child-page roots, hand back the write pass, root-page phase) under the controlled scheduler, two batches (updates / deletes incl. a root-page leaf). Also ALL schedules (a few hundred per batch) of the three beatree leaf-stage workers of one commit whose ranges are three consecutive leaves that all fall below the merge threshold (three batches: two of three values deleted / values shrunk and last leaf deleted / middle leaf deleted), i.e. of the extend-range protocol between neighbouring workers (poll left neighbour, send request, wait for response, wait for left neighbour to conclude, join in completion order): after every schedule the values, root and proofs equal the model and the directory decodes (independent decoder) to exactly the model with every page accounted for. And the branch stage: seed with two bottom branch nodes, one commit deleting 420–440 consecutive keys (≈ 140 leaves) so that the first node falls below the merge threshold and its worker requests nodes from its right neighbour, with three leaf-stage workers running under the scheduler as well (2 batches; every schedule with 0 preemptions quick, ≤1 and a capped ≤2 thorough).",
+        "histx: deviation-bounded enumeration of the option space around the default configuration: every configuration with ≤1 (thorough ≤2) option moved to another menu value {commit_concurrency 2,3,5,6,7,16,64,65; warm_up; page cache 0/1 MiB; leaf cache 0/1 MiB; io_workers 2,3; hashtable_buckets 1000 (not a power of two), 65536; another bitbox seed; page_cache_upper_levels 0,1,3 with and without prepopulation; rollback on} × a fixed set of 7 multi-commit histories that span several workers' key ranges (one of them a two-leaf trie whose terminals straddle the range boundaries of 3, 5, 6 and 7 workers), plus the tombstone family (16/32-bucket tables × searched bitbox seeds, pages removed and re-inserted, cold reopen), witnessed batches of 650–1300 warmed-up keys with 1 and 2 workers, the shared root page, the elision threshold from both sides (19- and 21-key clusters), overflow values, leaf and branch splits/merges, each with a mid-history reopen; every commit is witnessed; oracle: roots, values, proofs for every universe key, witness verification and update replay all equal the reference model (hence equal across configurations). Thread interleavings of the internal workers: every schedule with ≤2 (thorough: all) preemptions of the three merkle update workers of one witnessed commit (worker start, publish child-page roots, hand back the write pass, root-page phase) under the controlled scheduler, two batches (updates / deletes incl. a root-page leaf). Also ALL schedules (a few hundred per batch) of the three beatree leaf-stage workers of one commit whose ranges are three consecutive leaves that all fall below the merge threshold (three batches: two of three values deleted / values shrunk and last leaf deleted / middle leaf deleted), i.e. of the extend-range protocol between neighbouring workers (poll left neighbour, send request, wait for response, wait for left neighbour to conclude, join in completion order): after every schedule the values, root and proofs equal the model and the directory decodes (independent decoder) to exactly the model with every page accounted for. And the branch stage: seed with two bottom branch nodes, one commit deleting 420–440 consecutive keys (≈ 140 leaves) so that the first node falls below the merge threshold and its worker requests nodes from its right neighbour, with three leaf-stage workers running under the scheduler as well (2 batches; every schedule with 0 preemptions quick, ≤1 and a capped ≤2 thorough).",
     );
     p.budget_s = if thorough { 1700 } else { 55 };
     p.assumptions = vec!["thread interleavings of the internal workers are those the OS scheduler produced in these runs plus the controlled schedules of the schedx engine (see C15 evidence); sequentially-consistent interleavings only".into()];
